@@ -279,6 +279,15 @@ func (h *H) roundTrip(dom domain, raw *big.Int, full bool) {
 		h.vac("values_between_1024_and_1144_bits_encoded")
 	}
 	for _, c := range res {
+		if h.countOn && rec != nil {
+			o := "ok"
+			if c.err != "" {
+				o = "refused"
+			} else if c.got.Cmp(raw) != 0 {
+				o = "wrong " + c.got.String()
+			}
+			rec.add("RoundTrip."+dom.String()+"."+c.name+"."+bits, raw, nil, o)
+		}
 		kindStr, detail := "", ""
 		switch {
 		case c.err != "":
